@@ -70,7 +70,11 @@ def history(rng, w, res, algo_cycle):
                 op["calgo"] = spelling(rng, a1)
                 op["checksum"] = "ok"
             if combo == "add_store_algo":
-                op["add"] = rng.choice(["sha256", "SHA-256"])
+                sa = w.layout.halgo
+                op["add"] = rng.choice([sa, w.layout.algo])
+                if rng.random() < 0.5:
+                    op["calgo"] = rng.choice([sa, w.layout.algo])
+                    op["checksum"] = "ok"
             if op["content"] == "e":
                 op.pop("size", None)
             ops.append(op)
@@ -131,7 +135,7 @@ def run_shard(sub_seed, n, idx):
     for j in range(n):
         scratch = new_scratch("c02")
         try:
-            w = World(scratch, contents, {}, algo=rng.choice(["SHA-256", "MD5", "SHA-512"]))
+            w = World(scratch, contents, {}, algo=rng.choice(["SHA-256", "MD5", "SHA-512", "SHA-1", "SHA-384"]))
             ops = history(rng, w, res, algo_cycle)
             if j == 0:
                 res.sample({"history": [op_shape(o) + (":" + str(o.get("add")) if o.get("add") else "") +
